@@ -6,7 +6,7 @@ namespace Driver.C20
 open Proto Storage.Upload
 
 /- case <id> kind=up day=YYYYMMDD user=<hex> store=local|mem reqs=<req>;<req>;…
-     req   = <parts>|<endErr>|<fault>|<cut>
+     req   = <parts>|<endErr>|<fault>|<cut>|<day of the request>
      parts = - | part+part+…    part = X:<name hex> | F:<fname hex>:<content hex>:<cut>:<chunks a.b.c or ->
      fault = - | <k>.<o|s>.<d|l>
    case <id> kind=ids day=… ops=<m><c|a>,…
@@ -27,11 +27,11 @@ def parseFault (s : String) : Option Fault :=
   | [k, m, l] => k.toNat?.map fun k => { k := k, sticky := m == "s", leaves := l == "l" }
   | _ => none
 
-def parseReq (s : String) : Option (Req × Nat) :=
+def parseReq (s : String) : Option (Req × Nat × Nat) :=
   match s.splitOn "|" with
-  | [ps, e, f, c] =>
+  | [ps, e, f, c, d] =>
     let parts := if ps == "-" then [] else (ps.splitOn "+").filterMap parsePart
-    some ({ parts := parts, endErr := e == "1", fault := parseFault f }, c.toNat?.getD 0)
+    some ({ parts := parts, endErr := e == "1", fault := parseFault f }, c.toNat?.getD 0, d.toNat?.getD 0)
   | _ => none
 
 def str (b : Bytes) : String := String.ofList (b.map fun c => Char.ofNat c.toNat)
@@ -79,14 +79,13 @@ def specFiles (l : List (Bytes × Bytes)) (withData : Bool) : String :=
 def b01 (b : Bool) : String := if b then "1" else "0"
 
 def handleUp (l : Line) : IO Unit := do
-  let day := (l.nat? "day").getD 0
   let user := hexD (l.getD "user")
   let withData := l.getD "store" == "local"
-  let env : Env := { day := day, user := user, time := Bytes.ofString "2006-01-02T15:04:05Z" }
   let reqs := ((l.getD "reqs").splitOn ";").filterMap parseReq
   let mut s : Sys := {}
   let mut step := 0
-  for (req, cutFlag) in reqs do
+  for (req, cutFlag, day) in reqs do
+    let env : Env := { day := day, user := user, time := Bytes.ofString "2006-01-02T15:04:05Z" }
     let o := processUpload env req s
     s := o.sys
     let (status, err, fids) := match o.resp with
